@@ -14,6 +14,7 @@ package main
 // index must be the leader's; the follower's table set must converge to the leader's.
 
 import (
+	"bytes"
 	"context"
 	"fmt"
 	"go/ast"
@@ -53,6 +54,8 @@ type replEnv struct {
 	lastRev  map[string]uint64
 	gens     map[string]*fsmGen
 	cfg      replication.Config
+	// the follower's MaxInMemLogSize: half of it is the flush threshold of Restore's readIntoTable
+	fMaxInMem uint64
 }
 
 func (e *replEnv) line(op, ans string) {
@@ -64,7 +67,31 @@ func (e *replEnv) line(op, ans string) {
 func (e *replEnv) startFollower() {
 	e.q = storage.NewNotificationQueue()
 	go e.q.Run()
-	e.follower, e.fstate = newEngineState(engineOpts{maxInMem: 6 * 1024 * 1024, applied: e.q.Notify}, e.fstate)
+	if e.fMaxInMem == 0 {
+		e.fMaxInMem = 6 * 1024 * 1024
+	}
+	e.follower, e.fstate = newEngineState(engineOpts{maxInMem: e.fMaxInMem, applied: e.q.Notify}, e.fstate)
+}
+
+// leaderBulk: n acknowledged puts of 1.5 - 2.5 KiB values on keys of their own, so that a table recovered
+// from the leader's snapshot crosses the flush threshold of readIntoTable several times.
+func (e *replEnv) leaderBulk(tname string, n int) {
+	for i := 0; i < n; i++ {
+		k := []byte(fmt.Sprintf("bulk-%03d", i))
+		v := bytes.Repeat([]byte{byte(0x41 + e.r.Intn(26))}, 1536+e.r.Intn(1024))
+		ctx, cancel := context.WithTimeout(context.Background(), 10*time.Second)
+		r, err := e.leader.Put(ctx, &regattapb.PutRequest{Table: []byte(tname), Key: k, Value: v})
+		cancel()
+		if err != nil || r.Header.Revision == 0 {
+			continue
+		}
+		cmd := &regattapb.Command{Type: regattapb.Command_PUT, Kv: &regattapb.KeyValue{Key: k, Value: v}}
+		e.line(fmt.Sprintf("lop %s %s", hx([]byte(tname)), mkEntry(r.Header.Revision, cmd).render()), "ok")
+		e.mu.Lock()
+		e.lastRev[tname] = r.Header.Revision
+		e.out.Count("leader_write")
+		e.mu.Unlock()
+	}
 }
 
 func (e *replEnv) startManager() {
@@ -265,12 +292,18 @@ func replScenario(out *Out, r *rand.Rand, sc int) {
 		out.Line("ltable "+hx([]byte(n)), "ok")
 	}
 	// the follower may start before anything is written, or only after the leader has compacted its log
-	late := r.Intn(2) == 0
+	late := r.Intn(2) == 0 || sc == 0
 	if !late {
 		e.startFollower()
 		e.startManager()
 	}
 	pre := 20 + r.Intn(3*int(snapEntries))
+	if late && (sc == 0 || r.Intn(2) == 0) {
+		// the follower will have to recover a table of ~100 KiB with a flush threshold of 32 KiB
+		e.fMaxInMem = 64 * 1024
+		e.leaderBulk(names[0], 50)
+		out.Count("late_bulk_recovery")
+	}
 	for i := 0; i < pre; i++ {
 		e.leaderWrite(names[r.Intn(len(names))])
 		if !late && r.Intn(6) == 0 {
